@@ -360,6 +360,17 @@ class AugToAssign(ast.NodeTransformer):
         return ast.Assign(targets=[node.target], value=ast.BinOp(left=load, op=node.op, right=node.value))
 
 
+class IfToIfExp(ast.NodeTransformer):
+    """if c: x = A  else: x = B   ->   x = A if c else B   (both arms one assignment to the same plain name)"""
+
+    def visit_If(self, node):
+        self.generic_visit(node)
+        if len(node.body) == 1 and len(node.orelse) == 1 and all(isinstance(b, ast.Assign) and len(b.targets) == 1 and isinstance(b.targets[0], ast.Name) for b in (node.body[0], node.orelse[0])) \
+                and node.body[0].targets[0].id == node.orelse[0].targets[0].id:
+            return ast.Assign(targets=[ast.Name(id=node.body[0].targets[0].id, ctx=ast.Store())], value=ast.IfExp(test=node.test, body=node.body[0].value, orelse=node.orelse[0].value))
+        return node
+
+
 class ExplicitDefaults(ast.NodeTransformer):
     """library calls get their documented default keywords spelled out (np.meshgrid(..., indexing="xy"), .groupby(..., sort=True), ...)"""
 
@@ -424,6 +435,8 @@ def transformed(kind, root="/repo/verde", texts=None):
                 tree = ExtractMethod().visit(tree)
             if k == "aug-to-assign":
                 tree = AugToAssign().visit(tree)
+            if k == "if-to-ifexp":
+                tree = IfToIfExp().visit(tree)
             if k == "explicit-defaults":
                 tree = ExplicitDefaults().visit(tree)
             if k == "extract-helper":
